@@ -89,6 +89,15 @@ func tail(s string, n int) string {
 // runOverlayTest runs an in-package test against the real code without writing into /repo.
 // failed = the test ran and failed (the obligation is violated by the real code).
 func runOverlayTest(pkgDir, testName, src string) (string, bool, error) {
+	return runOverlayTestV(pkgDir, testName, src, "govc_replay_test.go")
+}
+
+func runOverlayTestV(pkgDir, testName, src, fileName string) (string, bool, error) {
+	return runOverlayTestWith(pkgDir, testName, src, fileName, nil)
+}
+
+// runOverlayTestWith additionally replaces source files (mutants: path -> content).
+func runOverlayTestWith(pkgDir, testName, src, fileName string, extra map[string][]byte) (string, bool, error) {
 	if pkgDir == "" {
 		return "", false, fmt.Errorf("package directory unknown")
 	}
@@ -101,15 +110,25 @@ func runOverlayTest(pkgDir, testName, src string) (string, bool, error) {
 		}
 	}
 	defer os.RemoveAll(work)
-	tf := filepath.Join(work, "govc_replay_test.go")
+	tf := filepath.Join(work, fileName)
 	if err := os.WriteFile(tf, []byte(src), 0o644); err != nil {
 		return "", false, err
 	}
-	ov := map[string]any{"Replace": map[string]string{filepath.Join(pkgDir, "govc_replay_test.go"): tf}}
+	repl := map[string]string{filepath.Join(pkgDir, fileName): tf}
+	n := 0
+	for path, content := range extra {
+		n++
+		ef := filepath.Join(work, fmt.Sprintf("extra%d_%s", n, filepath.Base(path)))
+		if err := os.WriteFile(ef, content, 0o644); err != nil {
+			return "", false, err
+		}
+		repl[path] = ef
+	}
+	ov := map[string]any{"Replace": repl}
 	ob, _ := json.Marshal(ov)
 	ovf := filepath.Join(work, "overlay.json")
 	_ = os.WriteFile(ovf, ob, 0o644)
-	cmd := osexec.Command("go", "test", "-overlay", ovf, "-vet=off", "-count=1", "-timeout", "60s", "-run", "^"+testName+"$", ".")
+	cmd := osexec.Command("go", "test", "-overlay", ovf, "-vet=off", "-count=1", "-v", "-timeout", "300s", "-run", "^"+testName+"$", ".")
 	cmd.Dir = pkgDir
 	cmd.Env = vc.GoEnv()
 	out, err := cmd.CombinedOutput()
